@@ -207,7 +207,8 @@ def judge(part, pid, w, scn):
             s, ec, has_exc = state[uid]
             cbs   = [x for x in log if x[0] == uid]
             fcbs  = [x[1] for x in cbs if x[1] in FINAL]
-            is_faulty = fault and uid == scn.get('fault_uid')
+            is_faulty = fault and (uid == scn.get('fault_uid') or
+                                   uid in w.fault_bulk)
             role  = 'named' if uid in named else \
                     'faulty:%s' % fault if is_faulty else 'bystander'
 
